@@ -26,7 +26,7 @@ FANOUT_CHUNK = 1
 RULE = (
     "programs {create from data frame with centres / with id column / with generated centres, from HDF5, from Parquet, from random generator; load a cache "
     "(metadata recomputed); build_trees binned+unbinned; HistData.from_catalog; autocorrelate; crosscorrelate; result I/O "
-    "(CorrFunc HDF5, CorrData text, Configuration YAML write+read)} x world size {2,3|4} x max_workers {None,1,2,size} x "
+    "(CorrFunc HDF5, CorrData text, Configuration YAML write+read); creation with id column, build_trees, histogram and crosscorrelate also with progress=True} x world size {2,3|4} x max_workers {None,1,2,size} x "
     "send completion {eager, rendezvous | size-threshold} x collectives {full, minimal synchronisation}; every "
     "wildcard-receive matching the standard permits is enumerated (POE: deterministic matches first, then branch over "
     "all matchable senders); creation on 4 ranks: complete up to 3 deviations from the default matching. Oracle: no deadlock, no rank raises, no message left unreceived, every pair-count / "
